@@ -51,6 +51,7 @@ struct St {
     min_inflight_seen: usize,
     max_inflight_seen: usize,
     polled_nonfront: u64,
+    poll_waiters: Vec<(usize, Waker)>,
 }
 
 struct Item {
@@ -80,6 +81,17 @@ impl Future for Item {
         if i > s.yielded {
             s.polled_nonfront += 1;
         }
+        if s.polled[i] == 1 {
+            let mut k = 0;
+            while k < s.poll_waiters.len() {
+                if s.poll_waiters[k].0 == i {
+                    let (_, w) = s.poll_waiters.swap_remove(k);
+                    w.wake();
+                } else {
+                    k += 1;
+                }
+            }
+        }
         // whoever waits for "task i has been polled" may proceed now
         if s.dep > 0 && i >= s.dep && s.polled[i] == 1 {
             let j = i - s.dep;
@@ -93,6 +105,25 @@ impl Future for Item {
             Poll::Ready(if self.err { Err(i) } else { Ok(i) })
         } else {
             s.wakers[i] = Some(cx.waker().clone());
+            Poll::Pending
+        }
+    }
+}
+
+/// resolves once task `i` has been polled at least once
+struct WaitPolled {
+    i: usize,
+    st: StdArc<StdMutex<St>>,
+}
+impl Future for WaitPolled {
+    type Output = ();
+    fn poll(self: Pin<&mut Self>, cx: &mut Context<'_>) -> Poll<()> {
+        let mut s = self.st.lock().unwrap();
+        if s.polled[self.i] > 0 {
+            Poll::Ready(())
+        } else {
+            let i = self.i;
+            s.poll_waiters.push((i, cx.waker().clone()));
             Poll::Pending
         }
     }
@@ -162,6 +193,7 @@ impl Scenario for SjScenario {
         };
         let est = 60 + n as u64 * 10;
         json!({"w": w, "n": n, "variant": variant, "release": release, "errs": errs, "dep": dep,
+               "source_gated": r.chance(1, 2), "inexact_hint": r.chance(1, 2),
                "source_steps": source_steps, "sched": SchedSpec::draw(&mut r, est, 200_000)})
     }
 
@@ -173,6 +205,8 @@ impl Scenario for SjScenario {
         let errs = pvec(p, "errs");
         let dep = pu(p, "dep");
         let source_steps = pvec(p, "source_steps");
+        let gated = pb(p, "source_gated");
+        let inexact = pb(p, "inexact_hint");
         {
             let mut seen = release.clone();
             seen.sort_unstable();
@@ -186,7 +220,7 @@ impl Scenario for SjScenario {
         }
         let mt = cfg!(feature = "multi-threading");
         let spec = SchedSpec::from_json(&p["sched"], explicit);
-        let shape = format!("sj {variant} w{w} n{n} d{dep} e{} s{} mt{}", errs.len(), source_steps.len(), u8::from(mt));
+        let shape = format!("sj {variant} w{w} n{n} d{dep} e{} s{} g{} x{} mt{}", errs.len(), source_steps.len(), u8::from(gated), u8::from(inexact), u8::from(mt));
         let st = StdArc::new(StdMutex::new(St {
             n,
             released: vec![false; n],
@@ -210,38 +244,41 @@ impl Scenario for SjScenario {
             let (st, out, errv) = (StdArc::clone(&st2), StdArc::clone(&out2), StdArc::clone(&errv));
             let (variant, release, steps) = (variant2.clone(), release2.clone(), steps2.clone());
             shuttle::future::block_on(async move {
-                // environment: opens the source in bursts and releases tasks in the seeded order
-                let env = {
+                // environment 1: opens the source in bursts; when gated, the next burst is opened only after
+                // the newest task of the previous burst has been polled (upstream depends on downstream progress)
+                let env_src = {
                     let st = StdArc::clone(&st);
                     let is_join = variant == "join";
                     shuttle::future::spawn(async move {
-                        let mut steps = steps.into_iter();
-                        let mut rel = release.into_iter();
-                        loop {
-                            let mut progressed = false;
-                            if is_join {
-                                if let Some(upto) = steps.next() {
-                                    let mut s = st.lock().unwrap();
-                                    s.source_upto = upto;
-                                    if let Some(w) = s.source_waker.take() {
-                                        w.wake();
-                                    }
-                                    progressed = true;
+                        if !is_join {
+                            return;
+                        }
+                        for upto in steps {
+                            {
+                                let mut s = st.lock().unwrap();
+                                s.source_upto = upto;
+                                if let Some(w) = s.source_waker.take() {
+                                    w.wake();
                                 }
                             }
-                            if progressed {
-                                shuttle::future::yield_now().await;
+                            shuttle::future::yield_now().await;
+                            if gated && upto > 0 {
+                                WaitPolled { i: upto - 1, st: StdArc::clone(&st) }.await;
                             }
-                            if let Some(i) = rel.next() {
+                        }
+                    })
+                };
+                // environment 2: releases tasks in the seeded order
+                let env = {
+                    let st = StdArc::clone(&st);
+                    shuttle::future::spawn(async move {
+                        for i in release {
+                            {
                                 let mut s = st.lock().unwrap();
                                 s.released[i] = true;
                                 if let Some(w) = s.wakers[i].take() {
                                     w.wake();
                                 }
-                                progressed = true;
-                            }
-                            if !progressed {
-                                break;
                             }
                             shuttle::future::yield_now().await;
                         }
@@ -262,28 +299,22 @@ impl Scenario for SjScenario {
                                 }
                                 Ok(v)
                             }
-                            "try" => {
-                                // seq_join + try_collect, with an inspecting stage that counts yielded items
-                                let (st_c, st_y, errv) = (StdArc::clone(&st), StdArc::clone(&st), StdArc::clone(&errv));
-                                let items = (0..n).map(move |i| {
-                                    st_c.lock().unwrap().created += 1;
-                                    Item { i, st: StdArc::clone(&st_c), err: errv[i] }
-                                });
-                                seq_join(window, futures::stream::iter(items))
-                                    .inspect(move |_| st_y.lock().unwrap().yielded += 1)
-                                    .try_collect::<Vec<usize>>()
-                                    .await
-                            }
-                            "ctx_try" => {
-                                // the library's own fallible wrapper (yielded items are not observable: window check off)
+                            "try" | "ctx_try" => {
+                                // the library's fallible wrappers (yielded items are not observable from outside:
+                                // the window is judged through the dependency patterns, which need it)
                                 st.lock().unwrap().slack = usize::MAX / 2;
                                 let (st_d, errv) = (StdArc::clone(&st), StdArc::clone(&errv));
-                                let ctx = Ctx(window);
-                                ctx.try_join((0..n).map(move |i| {
+                                let items = (0..n).map(move |i| {
                                     st_d.lock().unwrap().created += 1;
                                     Item { i, st: StdArc::clone(&st_d), err: errv[i] }
-                                }))
-                                .await
+                                });
+                                // an iterator adaptor whose size_hint lower bound is 0 (like `filter`, `flat_map`)
+                                let items: Box<dyn Iterator<Item = Item> + Send> = if inexact { Box::new(items.filter(|_| true)) } else { Box::new(items) };
+                                if variant == "try" {
+                                    seq_try_join_all(window, items).await
+                                } else {
+                                    Ctx(window).try_join(items).await
+                                }
                             }
                             _ => {
                                 let ctx = Ctx(window);
@@ -306,6 +337,7 @@ impl Scenario for SjScenario {
                 };
                 consumer.await.unwrap();
                 env.await.unwrap();
+                env_src.await.unwrap();
             });
         });
         let _ = &st;
